@@ -98,7 +98,8 @@ def main():
             d = os.path.join(V, "seeded", f"{pid}-{name}")
             os.makedirs(d, exist_ok=True)
             shutil.copy(patch, os.path.join(d, "patch.diff"))
-            shutil.copy(demo, os.path.join(d, "demo.cpp"))
+            if os.path.exists(demo):
+                shutil.copy(demo, os.path.join(d, "demo.cpp"))
             if use_sh:
                 shutil.copy(demosh, os.path.join(d, "demo.sh"))
             meta = {
